@@ -118,6 +118,13 @@ theorem gen_setLengths_eq_model (lx ly lz xy xz yz : K) (o : V3 K) :
   unfold Box.ofLengths? WrapSource.lengthsOk WrapSource.lengthsVects
   by_cases h1 : 0 < lx <;> by_cases h2 : 0 < ly <;> by_cases h3 : 0 < lz <;> simp [h1, h2, h3, GT.gt]
 
+/-- `set_hi_los` (reached through `box_set(xlo=…)` / `Box.set(xlo=…)`): lengths `hi − lo`, origin at the `lo` corner, tilt
+    factors handed on, then `set_lengths` — the shared `Box.ofHiLos?`. -/
+theorem gen_setHiLos_eq_model (xlo xhi ylo yhi zlo zhi xy xz yz : K) :
+    Box.ofHiLos? xlo xhi ylo yhi zlo zhi xy xz yz =
+      Box.ofLengths? (WrapSource.hiLoLx xlo xhi ylo yhi zlo zhi) (WrapSource.hiLoLy xlo xhi ylo yhi zlo zhi)
+        (WrapSource.hiLoLz xlo xhi ylo yhi zlo zhi) xy xz yz (WrapSource.hiLoOrigin xlo xhi ylo yhi zlo zhi) := rfl
+
 /-- `set_abc` of the cell's own parameters (the rebuild of `normalize`): the six LAMMPS parameters. -/
 theorem gen_abc_eq_model (sqrt : K → K) (v : M3 K) :
     abcBox? sqrt v =
